@@ -221,6 +221,8 @@ pub fn monitored_call(
             3 => 1,
             4 => (rng.below(48) == 0) as u8,
             5 => (((k + pad) % 64) % 2 == ((k + pad) / 64) % 2) as u8,
+            // (kind 0 doubles as "last whole word zero", kind 1 stays dense random)
+            0 if seed % 2 == 0 => ((k + pad) / 64 + 1 != (len + pad) / 64) as u8 & (rng.next() & 1) as u8,
             _ => (rng.next() & 1) as u8,
         };
     }
